@@ -53,29 +53,19 @@ func ruleC11_1(c *Ctx) {
 	if !c.Need("C11.1", "ageSet") {
 		return
 	}
-	isAge := func(in ssa.Instruction) bool {
-		if c.An.CallsRole(in, "ageSet") {
-			// the response given to Age generation must be a stored response
-			_, args := recvAndArgs(callOf(in))
-			if len(args) > 0 {
-				_, ok := c.An.isEntryDataLoad(args[0])
-				return ok
-			}
+	asAge := AssumeKeys(map[string]bool{not304: false})
+	isAge := c.An.KUnder("AGE-SET", "not304", asAge, func(in ssa.Instruction) bool {
+		if !c.An.CallsRole(in, "ageSet") {
+			return false
 		}
-		if call, ok := in.(*ssa.Call); ok {
-			cs := c.P.RepoCallees(call)
-			if len(cs) == 0 {
-				return false
-			}
-			for _, cal := range cs {
-				if !c.An.Must("AGE-SET", cal, func(i2 ssa.Instruction) bool { return c.An.CallsRole(i2, "ageSet") }) {
-					return false
-				}
-			}
-			return true
+		// the response given to Age generation must be a stored response
+		_, args := recvAndArgs(callOf(in))
+		if len(args) == 0 {
+			return false
 		}
-		return false
-	}
+		k := c.An.ResponseKinds(args[0])
+		return k["stored"]
+	})
 	n := 0
 	for _, fn := range c.functionsWithServeReturn() {
 		pr := c.An.Prune(fn, AssumeKeys(map[string]bool{not304: false}))
@@ -275,6 +265,16 @@ func (an *Analysis) statusSeqs(pr *Pruned, target ssa.Instruction) map[string]bo
 						v = "?"
 					}
 					cur = apply(cur, v)
+				} else if call, ok := ins.(*ssa.Call); ok {
+					// a helper (not itself an outcome function) that applies statuses on all its paths
+					for _, cal := range an.P.RepoCallees(call) {
+						if isOutcomeFunc(cal) || len(cal.Blocks) == 0 || an.A.roleOf[cal] != "" {
+							continue
+						}
+						for _, v := range an.statusesAlwaysApplied(cal, 0) {
+							cur = apply(cur, v)
+						}
+					}
 				}
 			}
 			if len(cur) != len(out[b.Index]) {
@@ -332,9 +332,12 @@ func ruleC11_3(c *Ctx) {
 				kind = "serve"
 			default:
 				ks := c.An.ResponseKinds(r.Results[0])
-				if ks["upstream"] && !ks["stored"] {
+				switch {
+				case ks["upstream"] && !ks["stored"]:
 					kind = "origin"
-				} else {
+				case ks["stored"] && !ks["upstream"] && !ks["synth"]:
+					kind = "serve" // handed back by a helper
+				default:
 					kind = "other"
 				}
 			}
@@ -634,4 +637,54 @@ func ruleC11_8(c *Ctx) {
 	if n == 0 {
 		c.Undecided("C11.8", "vacuity", "status application sites exist", "none")
 	}
+}
+
+// statusesAlwaysApplied: the sequence of statuses a helper applies when it applies the same sequence on every path.
+var statusHelperMemo = map[*ssa.Function][]string{}
+
+func (an *Analysis) statusesAlwaysApplied(fn *ssa.Function, depth int) (res []string) {
+	if depth > 3 || len(fn.Blocks) == 0 {
+		return nil
+	}
+	if v, ok := statusHelperMemo[fn]; ok {
+		return v
+	}
+	statusHelperMemo[fn] = nil
+	defer func() { statusHelperMemo[fn] = res }()
+	// only helpers that can apply a status at all
+	if !an.May("STATUS-APPLY", fn, func(in ssa.Instruction) bool { return an.CallsRole(in, "statusApply") }, false) {
+		return nil
+	}
+	pr := an.Prune(fn, nil)
+	var seq map[string]bool
+	first := true
+	okSame := true
+	instrsOf(fn, func(in ssa.Instruction) {
+		if _, isRet := in.(*ssa.Return); !isRet {
+			return
+		}
+		s := an.statusSeqs(pr, in)
+		if first {
+			seq, first = s, false
+			return
+		}
+		if len(s) != len(seq) {
+			okSame = false
+		}
+		for k := range s {
+			if !seq[k] {
+				okSame = false
+			}
+		}
+	})
+	if !okSame || len(seq) != 1 {
+		return nil
+	}
+	for k := range seq {
+		if k == "" {
+			return nil
+		}
+		return strings.Split(k, ",")
+	}
+	return nil
 }
